@@ -340,7 +340,18 @@ static cfg_opt_t *cfg_getopt_secidx(cfg_t *cfg, const char *name,
 			return NULL;
 
 		name += len;
-		name += strspn(name, "|");
+		if (*name == '|') {
+			name += strspn(name, "|");
+			/* A path cannot end in a separator */
+			if (!*name)
+				return NULL;
+		}
+	}
+
+	/* A section path with something left over does not name a section */
+	if (index && *name) {
+		*index = -1;
+		return NULL;
 	}
 
 	if (!index) {
